@@ -191,7 +191,9 @@ namespace foonathan
                             count * node_size,
                             [&] { return next_capacity() - pool.alignment() + 1; }, info());
 
-                        block = reserve_memory(pool, count * node_size);
+                        // the pool takes whole nodes of its own size, which may exceed node_size
+                        block = reserve_memory(pool, (count * node_size + pool.node_size() - 1)
+                                                         / pool.node_size() * pool.node_size());
                         pool.insert(block.memory, block.size);
 
                         mem = pool.allocate(count * node_size);
